@@ -40,9 +40,10 @@ func (f BalancerFunc) Balance(msg Message, partitions ...int) int {
 // This can be used to improve batch sizes.
 type RoundRobin struct {
 	ChunkSize int
-	// Use a 32 bits integer so RoundRobin values don't need to be aligned to
-	// apply increments.
-	counter uint32
+	// Number of messages seen so far. A 64 bits integer is used so the counter
+	// cannot wrap around (which would break the cycle through the partitions)
+	// and so chunk sizes that do not fit in 32 bits are not truncated.
+	counter uint64
 
 	mutex sync.Mutex
 }
@@ -60,9 +61,9 @@ func (rr *RoundRobin) balance(partitions []int) int {
 		rr.ChunkSize = 1
 	}
 
-	length := len(partitions)
+	length := uint64(len(partitions))
 	counterNow := rr.counter
-	offset := int(counterNow / uint32(rr.ChunkSize))
+	offset := counterNow / uint64(rr.ChunkSize)
 	rr.counter++
 	return partitions[offset%length]
 }
